@@ -24,10 +24,19 @@ muts = args or sorted(os.path.basename(os.path.dirname(d)) for d in glob.glob(os
 resf = os.path.join(V, sdir, "RESULTS.json")
 results = json.load(open(resf)) if os.path.exists(resf) else {}
 
+# snapshot of the machinery (spec, lib, bin, harness sources) so that edits made to /verif while a long
+# matrix run is in progress cannot change what a mutant is judged with
+SNAP = V
+if not inplace:
+    SNAP = "/tmp/seedrun/verif-snapshot-%d" % os.getpid()
+    shutil.rmtree(SNAP, ignore_errors=True)
+    shutil.copytree(V, SNAP, ignore=shutil.ignore_patterns("work", ".git", "target", "replays", "evidence"))
+
+
 def run_checks(env, row):
     for p in props:
-        r = subprocess.run([os.path.join(V, "bin/check"), p, tier], stdout=subprocess.PIPE, stderr=subprocess.PIPE,
-                           text=True, cwd=V, env=env)
+        r = subprocess.run([os.path.join(SNAP, "bin/check"), p, tier], stdout=subprocess.PIPE, stderr=subprocess.PIPE,
+                           text=True, cwd=SNAP, env=env)
         nv = sum(1 for l in r.stdout.splitlines() if l.startswith("VIOLATION"))
         row[p] = {"exit": r.returncode, "violations": nv,
                   "first": next((l for l in r.stdout.splitlines() if l.startswith("  case:")), "")[:300]}
@@ -55,7 +64,7 @@ def one(m):
         subprocess.check_call(["git", "-C", "/repo", "worktree", "add", "-q", "--detach", S + "/repo", "HEAD"])
         if subprocess.run(["git", "-C", S + "/repo", "apply", patch]).returncode != 0:
             return m, {"_apply": "failed"}
-        shutil.copytree(os.path.join(V, "harness"), S + "/harness", ignore=shutil.ignore_patterns("target"))
+        shutil.copytree(os.path.join(SNAP, "harness"), S + "/harness", ignore=shutil.ignore_patterns("target"))
         ct = open(S + "/harness/Cargo.toml").read().replace('path = "/repo"', 'path = "%s/repo"' % S)
         open(S + "/harness/Cargo.toml", "w").write(ct)
         env = dict(os.environ, PKV_REPO=S + "/repo", PKV_HARNESS=S + "/harness", PKV_WORK=S + "/work",
@@ -78,3 +87,5 @@ with ThreadPoolExecutor(max_workers=1 if inplace else jobs) as ex:
         print(m, "flagged by", flagged, ("TOOL-ERRORS " + str(errs)) if errs else "", row.get("_apply", ""), flush=True)
         json.dump(results, open(resf, "w"), indent=1, sort_keys=True)
 subprocess.run(["git", "-C", "/repo", "worktree", "prune"])
+if SNAP != V:
+    shutil.rmtree(SNAP, ignore_errors=True)
